@@ -143,6 +143,15 @@ fn make_instruction_map() -> HashMap<String, (InstructionType, u8)> {
     result
 }
 
+/// Verification hook: the mnemonic table as (name, operand shape, opcode).
+#[cfg(rbpf_verif)]
+pub fn verif_instruction_table() -> Vec<(String, String, u8)> {
+    make_instruction_map()
+        .into_iter()
+        .map(|(name, (ty, opc))| (name, format!("{ty:?}"), opc))
+        .collect()
+}
+
 fn insn(opc: u8, dst: i64, src: i64, off: i64, imm: i64) -> Result<Insn, String> {
     if !(0..16).contains(&dst) {
         return Err(format!("Invalid destination register {dst}"));
